@@ -45,6 +45,7 @@ type callSpec struct {
 	tail    string                              // constructor applied to the effect state for a call in tail position (the function ends with it)
 	spread  bool                                // the call may pass its last argument with ... (the template sees the slice)
 	check   func(x *tr, c *ast.CallExpr) string // extra condition on the call; non-empty = why it is outside the fragment
+	unwrap  bool                                // f(g(..)) as a statement is the statement g(..): f only inspects the error g returns
 }
 
 type target struct {
@@ -75,6 +76,9 @@ type target struct {
 	globals  []string            // names defined in the imported Coq files that the renderings may mention
 	fuels    []string            // fuel (a nat term over the names in scope at loop entry) of the i-th three-clause for loop, in source order
 	closures map[string]string   // local function values: name -> the exact source text the declaration in calls[name] stands for
+	auto     bool                // undeclared calls of plain functions of the package are translated too, as auxiliary definitions aux_<name>
+	retTy    string              // Coq type of the returned value (inside retfmt): needed for a return inside a for loop
+	isAux    bool
 }
 
 type untranslatable struct{ why string }
@@ -82,7 +86,10 @@ type untranslatable struct{ why string }
 type pend struct{ name, term string }
 
 // what continue / break / return mean inside the loop body being translated (nil = not available)
-type loopCtx struct{ cont, brk, ret func() string }
+type loopCtx struct {
+	cont, brk, ret func() string
+	retv           func(v string) string // return of a value out of a for loop
+}
 
 type tr struct {
 	t        *target
@@ -99,7 +106,9 @@ type tr struct {
 	panics   []string // innermost last: what a panic yields inside the loop bodies being translated
 	forIdx   map[*ast.ForStmt]int
 	closed   map[types.Object]bool // local function values accepted as declared closures
-	named    []string              // Coq names of the named results (strict)
+	aux      []string              // auxiliary definitions (helpers translated on the way), in order
+	auxName  map[*types.Func]string
+	named    []string // Coq names of the named results (strict)
 	namedPos map[string]token.Pos
 	ignored  map[types.Object]bool
 	names    map[types.Object]string
@@ -150,7 +159,7 @@ var reserved = map[string]bool{
 	"if": true, "then": true, "else": true, "return": true, "forall": true, "exists": true, "Type": true, "Set": true, "Prop": true,
 	"Some": true, "None": true, "true": true, "false": true, "tt": true, "unit": true, "bool": true, "nat": true, "list": true,
 	"option": true, "byte": true, "bytes": true, "Z": true, "N": true, "S": true, "O": true, "error": true, "member": true,
-	"tr_": true, "k_": true, "st_": true, "brk_": true, "ret_": true,
+	"tr_": true, "k_": true, "st_": true, "brk_": true, "ret_": true, "rv_": true,
 }
 
 func (x *tr) ident(name string) string {
@@ -671,7 +680,7 @@ func (x *tr) expr(e ast.Expr) string {
 		if x.t.strict && k != x.kindOf(z.Y) {
 			x.bad(z, "operands of different translated types")
 		}
-		if x.t.strict && (z.Op == token.SHR || z.Op == token.SHL || z.Op == token.ADD || z.Op == token.SUB) && k == "Z" {
+		if x.t.strict && (z.Op == token.SHR || z.Op == token.SHL || z.Op == token.ADD || z.Op == token.SUB || z.Op == token.MUL) && k == "Z" {
 			// fixed-width arithmetic: + - << can wrap in Go, the translation is on Z.  Accepted on int / int64
 			// (unbounded by the convention of DESIGN.md 2.1); >> never wraps but needs a count >= 0
 			lt, _ := x.p.TypesInfo.TypeOf(z.X).Underlying().(*types.Basic)
@@ -765,6 +774,10 @@ func (x *tr) expr(e ast.Expr) string {
 			return "(" + a + " + " + b + ")"
 		case token.SUB:
 			return "(" + a + " - " + b + ")"
+		case token.MUL:
+			if x.t.strict {
+				return "(" + a + " * " + b + ")"
+			}
 		}
 	case *ast.SliceExpr:
 		// t[:n] / t[n:] on a string: panics outside 0..len(t)
@@ -894,6 +907,11 @@ func (x *tr) expr(e ast.Expr) string {
 							return fmt.Sprintf("(%s mod %d)", x.expr(z.Args[0]), new(big.Int).Lsh(big.NewInt(1), uint(dbits)))
 						}
 					}
+				}
+			}
+			if x.t.auto {
+				if t := x.autoCall(z); t != "" {
+					return t
 				}
 			}
 			x.bad(z, "call outside the fragment ("+key+")")
@@ -1253,6 +1271,11 @@ func (x *tr) effectCallWith(c *ast.CallExpr, cs callSpec, lhs []string, n ast.No
 		return tail()
 	case cs.state != "":
 		names := append(append([]string{}, lhs...), x.t.effects...)
+		if cs.partial {
+			// the callee can panic (None): that ends this function too
+			return fmt.Sprintf("match %s with\n  | None => %s\n  | Some %s => %s\n  end",
+				x.fillWith(cs.state, c, args), x.panicTerm(), patTuple(names), x.bind(names, tail))
+		}
 		return x.letTuple(names, x.fillWith(cs.state, c, args), tail)
 	case cs.pure != "":
 		if len(lhs) == 0 {
@@ -1508,6 +1531,14 @@ func (x *tr) seq(stmts []ast.Stmt, k func() string) string {
 			// return inside a loop: Go assigns the values to the named results, the fold stops and
 			// the function ends with them
 			lc := x.loops[len(x.loops)-1]
+			if lc.retv != nil && len(z.Results) > 0 {
+				mark := len(x.pending)
+				var vals []string
+				for _, r := range z.Results {
+					vals = append(vals, x.expr(r))
+				}
+				return x.hoistStmt(mark, func() string { return lc.retv(tuple(vals)) })
+			}
 			if lc.ret == nil || (len(z.Results) > 0 && len(z.Results) != len(x.named)) {
 				x.bad(z, "return inside a loop of a function without named results")
 			}
@@ -1537,6 +1568,11 @@ func (x *tr) seq(stmts []ast.Stmt, k func() string) string {
 		if c, ok := z.X.(*ast.CallExpr); ok {
 			if x.t.strict {
 				key := x.callKey(c)
+				if cs, ok := x.t.calls[key]; ok && cs.unwrap && len(c.Args) == 1 {
+					if inner, isCall := c.Args[0].(*ast.CallExpr); isCall {
+						c, key = inner, x.callKey(inner)
+					}
+				}
 				if cs, ok := x.t.calls[key]; ok {
 					if cs.tail != "" {
 						x.checkArgs(c)
@@ -1707,13 +1743,18 @@ func (x *tr) assignStrict(z *ast.AssignStmt, tail func() string) string {
 					x.bad(z, "assignment operator with a call that has effects")
 				}
 				var lhs []string
+				blank := true
 				for _, l := range z.Lhs {
 					if id, ok := l.(*ast.Ident); ok && id.Name == "_" {
 						lhs = append(lhs, "_")
 						continue
 					}
+					blank = false
 					nm, _ := x.lhsName(l)
 					lhs = append(lhs, nm)
+				}
+				if blank {
+					lhs = nil // _, _ = f(..): the statement f(..)
 				}
 				return x.effectCall(c, cs, lhs, z, tail)
 			}
@@ -2264,14 +2305,18 @@ func (x *tr) forStrict(z *ast.ForStmt, tail func() string) string {
 	if x.t.panicT == "" {
 		x.bad(z, "for loop in a target without a panic outcome")
 	}
-	idx, ok := x.forIdx[z]
-	if !ok || idx >= len(x.t.fuels) {
-		x.bad(z, "for loop without a declared fuel")
+	fuel := ""
+	if idx, ok := x.forIdx[z]; ok && idx < len(x.t.fuels) {
+		fuel = x.t.fuels[idx]
 	}
+	hasRet := false
 	ast.Inspect(z.Body, func(n ast.Node) bool {
 		switch b := n.(type) {
 		case *ast.ReturnStmt:
-			x.bad(z, "return inside a for loop")
+			hasRet = true
+			if x.t.retTy == "" || len(b.Results) == 0 {
+				x.bad(z, "return inside a for loop of a target without a declared result type")
+			}
 		case *ast.BranchStmt:
 			if b.Label != nil || (b.Tok != token.CONTINUE && b.Tok != token.BREAK) {
 				x.bad(z, "labelled branch / goto inside a loop")
@@ -2295,10 +2340,23 @@ func (x *tr) forStrict(z *ast.ForStmt, tail func() string) string {
 	for _, v := range vars {
 		x.use(v)
 	}
+	if fuel == "" {
+		fuel = x.countingFuel(z, vars)
+	}
+	inner := vars
+	if hasRet {
+		// rv_: the value returned out of the loop, if any
+		vars = append(append([]string{}, vars...), "rv_")
+	}
 	st := tuple(vars)
 	lc := &loopCtx{
 		cont: func() string { return x.seq(post, func() string { return "LoopNext " + paren(tuple(vars)) }) },
 		brk:  func() string { return "LoopDone " + paren(tuple(vars)) },
+	}
+	if hasRet {
+		lc.retv = func(v string) string {
+			return "LoopDone " + paren(tuple(append(append([]string{}, inner...), "Some "+paren(v))))
+		}
 	}
 	x.loops = append(x.loops, lc)
 	x.panics = append(x.panics, "LoopPanic")
@@ -2321,8 +2379,120 @@ func (x *tr) forStrict(z *ast.ForStmt, tail func() string) string {
 		lam = fmt.Sprintf("(fun st_ => let '%s := st_ in\n  %s)", st, body)
 	}
 	rest := x.bind(vars, tail)
+	init := st
+	if hasRet {
+		init = tuple(append(append([]string{}, inner...), "(@None "+paren(x.t.retTy)+")"))
+		wrapped := "rv_"
+		if x.t.retfmt != "" {
+			wrapped = fmt.Sprintf(x.t.retfmt, "rv_")
+		}
+		rest = fmt.Sprintf("match rv_ with\n  | Some rv_ => %s\n  | None => %s\n  end", wrapped, rest)
+	}
 	return fmt.Sprintf("match go_loop (%s) %s %s with\n  | None => %s\n  | Some %s => %s\n  end",
-		x.t.fuels[idx], lam, st, x.panicTerm(), patTuple(vars), rest)
+		fuel, lam, init, x.panicTerm(), patTuple(vars), rest)
+}
+
+// autoCall: an undeclared call of a plain function of the package (no receiver, parameters and one result
+// of translatable basic types): the function is translated as an auxiliary definition aux_<name> with
+// the table / oracle binders of the calling target passed through, and the call is a partial operation
+// (None = the helper panics or runs out of fuel).
+func (x *tr) autoCall(c *ast.CallExpr) string {
+	id, ok := c.Fun.(*ast.Ident)
+	if !ok {
+		return ""
+	}
+	fn, ok := x.p.TypesInfo.Uses[id].(*types.Func)
+	if !ok || fn.Pkg() != x.p.Types {
+		return ""
+	}
+	sig := fn.Type().(*types.Signature)
+	if sig.Recv() != nil || sig.Variadic() || sig.Results().Len() != 1 || c.Ellipsis != token.NoPos {
+		return ""
+	}
+	var pass []string // binders handed through
+	for _, b := range x.t.params {
+		parts := strings.SplitN(b[1:len(b)-1], ":", 2)
+		ty := strings.TrimSpace(parts[1])
+		for _, n := range strings.Fields(parts[0]) {
+			if strings.HasPrefix(n, "g_") || strings.HasPrefix(n, "m_") || strings.HasPrefix(n, "f_") || strings.Contains(ty, "->") {
+				pass = append(pass, "("+n+" : "+ty+")")
+			}
+		}
+	}
+	name, done := x.auxName[fn]
+	if !done {
+		rt := x.coqType(sig.Results().At(0).Type())
+		if rt == "?" {
+			x.bad(c, "helper "+fn.Name()+": result type outside the fragment")
+		}
+		ps := append([]string{}, pass...)
+		for i := 0; i < sig.Params().Len(); i++ {
+			p := sig.Params().At(i)
+			k := x.coqType(p.Type())
+			if k == "?" || p.Name() == "" || p.Name() == "_" {
+				x.bad(c, "helper "+fn.Name()+": parameter type outside the fragment")
+			}
+			ps = append(ps, "("+x.ident(p.Name())+" : "+k+")")
+		}
+		name = "aux_" + x.t.coq + "_" + fn.Name()
+		at := &target{pkg: x.t.pkg, recv: "", fn: fn.Name(), coq: name, strict: true, auto: false, isAux: true,
+			comment: "(helper met on the way; None = panic / out of fuel)", panicT: "None", retfmt: "Some (%s)", retTy: rt,
+			tymap: x.t.tymap, calls: x.t.calls, params: ps, result: "option " + paren(rt), final: "None", globals: x.t.globals}
+		def, ok, why := translate(at)
+		if !ok {
+			x.bad(c, "helper "+fn.Name()+": "+why)
+		}
+		x.aux = append(x.aux, def)
+		x.auxName[fn] = name
+	}
+	var args []string
+	for _, b := range pass {
+		args = append(args, strings.Fields(b[1:])[0])
+	}
+	for _, a := range c.Args {
+		args = append(args, paren(x.expr(a)))
+	}
+	return x.partial(name + " " + strings.Join(args, " "))
+}
+
+// countingFuel: for ..; i < B; i++ { body } where the body assigns neither i nor anything B reads runs at
+// most B - i rounds: fuel = S (Z.to_nat (B - i)) at loop entry.  (A wrong bound could only make the
+// generated function return None, never a wrong value.)
+func (x *tr) countingFuel(z *ast.ForStmt, vars []string) string {
+	be, ok := z.Cond.(*ast.BinaryExpr)
+	if !ok || be.Op != token.LSS {
+		x.bad(z, "for loop without a declared fuel")
+	}
+	id, ok := be.X.(*ast.Ident)
+	inc, isInc := z.Post.(*ast.IncDecStmt)
+	if !ok || !isInc || inc.Tok != token.INC || src(inc.X) != id.Name || x.kindOf(id) != "Z" || x.kindOf(be.Y) != "Z" {
+		x.bad(z, "for loop without a declared fuel")
+	}
+	iname := x.objName(x.p.TypesInfo.Uses[id], id.Name)
+	bodyVars := x.outerAssignedIn(z.Body.List, z.Body.Pos(), z.Body.End())
+	assigned := map[string]bool{}
+	for _, v := range bodyVars {
+		assigned[v] = true
+	}
+	bad := assigned[iname]
+	ast.Inspect(be.Y, func(n ast.Node) bool {
+		if u, ok := n.(*ast.Ident); ok {
+			if obj, isVar := x.p.TypesInfo.Uses[u].(*types.Var); isVar && assigned[x.objName(obj, u.Name)] {
+				bad = true
+			}
+		}
+		if cl, isCall := n.(*ast.CallExpr); isCall && x.callKey(cl) != "len" {
+			bad = true
+		}
+		return true
+	})
+	if bad {
+		x.bad(z, "for loop without a declared fuel")
+	}
+	mark := len(x.pending)
+	b := x.expr(be.Y)
+	x.noPending(mark, z)
+	return "S (Z.to_nat (" + b + " - " + x.use(iname) + "))"
 }
 
 func patTuple(names []string) string {
@@ -2363,7 +2533,7 @@ func translate(t *target) (def string, ok bool, why string) {
 		return "", false, "function not found"
 	}
 	x := &tr{t: t, p: p, fd: fd, free: map[string]bool{}, bound: map[string]int{}, ignored: map[types.Object]bool{}, names: map[types.Object]string{}, namedPos: map[string]token.Pos{},
-		forIdx: map[*ast.ForStmt]int{}, closed: map[types.Object]bool{}}
+		forIdx: map[*ast.ForStmt]int{}, closed: map[types.Object]bool{}, auxName: map[*types.Func]string{}}
 	nfor := 0
 	ast.Inspect(fd.Body, func(n ast.Node) bool {
 		if f, ok := n.(*ast.ForStmt); ok {
@@ -2466,7 +2636,7 @@ func translate(t *target) (def string, ok bool, why string) {
 		}
 		notes += "   (* " + strings.ReplaceAll(n, "*)", "* )") + " *)\n"
 	}
-	return fmt.Sprintf("(* %s.%s  %s *)\n%sDefinition %s %s : %s :=\n  %s.\n", t.recv, t.fn, t.comment, notes, t.coq, strings.Join(t.params, " "), t.result, body), true, ""
+	return strings.Join(x.aux, "\n") + fmt.Sprintf("(* %s.%s  %s *)\n%sDefinition %s %s : %s :=\n  %s.\n", t.recv, t.fn, t.comment, notes, t.coq, strings.Join(t.params, " "), t.result, body), true, ""
 }
 
 // reindent lays the generated term out by the nesting of match .. end and of parentheses
